@@ -69,11 +69,30 @@ def cases(tier, rng):
     return out
 
 
-def execute(finder, sp, me, rng):
+G_CUBIC = [[1, 0, 0], [0, 1, 0], [0, 0, 1]]
+G_HEX = [[2, -1, 0], [-1, 2, 0], [0, 0, 5]]  # hexagonal frame, (c/a)^2 = 5/2 (BestBasis!GHex)
+SMALL = [v for v in itertools.product(range(-1, 2), repeat=3) if any(v)]
+
+
+def hex_cases(tier, rng):
+    out = []
+    for _ in range(1200 if tier == "quick" else 10000):
+        n = int(rng.integers(1, 6))
+        idx = rng.choice(len(SMALL), size=n, replace=False)
+        sp = [SMALL[k] for k in idx]
+        u = rng.random()
+        me = ([1] * n if u < 0.5 else [int(x) for x in rng.integers(1, 4, size=n)] if u < 0.7
+              else [int(rng.choice([12, 30, 64])) - int(x) for x in rng.integers(0, 6, size=n)])
+        out.append((sp, me))
+    return out
+
+
+def execute(finder, sp, me, rng, gram=G_CUBIC):
     scale = float(rng.choice([1.0, 2.0, 2.87, 3.61, 5.43]))
     rot = np.eye(3) if rng.random() < 0.4 else _rotation(rng)
-    spans = scale * (np.array(sp, dtype=float) @ rot.T)
-    rec = {"spans": [list(map(int, v)) for v in sp], "metrics": [int(m) for m in me], "res": [], "error": "",
+    frame = np.linalg.cholesky(np.array(gram, dtype=float))  # rows = frame vectors with the scalar products `gram`
+    spans = scale * (np.array(sp, dtype=float) @ frame @ rot.T)
+    rec = {"spans": [list(map(int, v)) for v in sp], "metrics": [int(m) for m in me], "res": [], "error": "", "gram": gram,
            "scale": scale, "rotated": bool(not np.allclose(rot, np.eye(3)))}
     try:
         res = finder._find_best_basis(spans, np.array(me, dtype=int))
@@ -88,12 +107,17 @@ def run(run, tier):
     from matid.core.periodicfinder import PeriodicFinder
     from matid.data import constants
 
-    mc = tlc.run("BestBasis.tla", "BestBasis_mc.cfg", timeout=1200)
+    # quick: Total, Independent, PrimitiveWhenAvailable; the thorough tier adds OrderIndependent (three evaluations of the rule per input)
+    mc = tlc.run("BestBasis.tla", "BestBasis_mcq.cfg" if tier == "quick" else "BestBasis_mc.cfg", timeout=1800)
     if mc.violated:
         raise MachineryError("BestBasis.tla design model violates %s" % mc.violated)
-    run.add_model(mc, "BestBasis_mc: every list of <= 3 distinct spans of a 17-vector universe, equal metrics "
-                      "(Total, Independent, PrimitiveWhenAvailable, OrderIndependent)")
+    run.add_model(mc, "BestBasis_mc: every list of <= 3 distinct spans of a 17-vector universe (cubic frame), equal metrics "
+                      "(Total, Independent, PrimitiveWhenAvailable%s)" % ("" if tier == "quick" else ", OrderIndependent"))
     if tier != "quick":
+        mh = tlc.run("BestBasis.tla", "BestBasis_mchex.cfg", timeout=1800)
+        if mh.violated:
+            raise MachineryError("BestBasis.tla (hexagonal frame) violates %s" % mh.violated)
+        run.add_model(mh, "BestBasis_mchex: every list of <= 3 distinct spans of the 13 small vectors in a hexagonal frame")
         mm = tlc.run("BestBasis.tla", "BestBasis_met.cfg", timeout=1800)
         if mm.violated:
             raise MachineryError("BestBasis.tla (metrics 1..2) violates %s" % mm.violated)
@@ -111,7 +135,7 @@ def run(run, tier):
     finder = PeriodicFinder()
     # spec -> code: every initial state of the design model, written out by TLC itself (BestBasisEmit.tla)
     emitted = []
-    for cfg in (("BestBasisEmit3.cfg",) if tier == "quick" else ("BestBasisEmit3.cfg", "BestBasisEmit3m.cfg")):
+    for cfg in (("BestBasisEmit3.cfg", "BestBasisEmit3hex.cfg") if tier == "quick" else ("BestBasisEmit3.cfg", "BestBasisEmit3hex.cfg", "BestBasisEmit3m.cfg")):
         out = os.path.join(scratch("bestbasis"), cfg + ".ndjson")
         em = tlc.run("BestBasisEmit.tla", cfg, env={"OUT_FILE": out}, workers=1, timeout=1200)
         n = em.printed("EMITTED")
@@ -119,13 +143,26 @@ def run(run, tier):
         os.remove(out)
         if not n or n[0][0] != len(lines) or not lines:
             raise MachineryError("BestBasisEmit %s: %s states announced, %d written" % (cfg, n, len(lines)))
-        emitted += [(c["spans"], c["metrics"]) for c in lines]
+        emitted += [(c["spans"], c["metrics"], c["gram"]) for c in lines]
     run.notes["bestbasis_model_states_replayed"] = len(emitted)
-    recs = [execute(finder, sp, me, rng) for sp, me in emitted + cases(tier, rng)]
-    for k, r in enumerate(recs):
-        r["tid"] = k + 1
+    recs = [execute(finder, sp, me, rng, g) for sp, me, g in emitted]
+    recs += [execute(finder, sp, me, rng) for sp, me in cases(tier, rng)]
+    recs += [execute(finder, sp, me, rng, G_HEX) for sp, me in hex_cases(tier, rng)]
     prefix = os.path.join(scratch("bestbasis"), "bb")
-    total, fails = tlc.run_chunks("TraceBestBasis.tla", "TraceBestBasis.cfg", recs, prefix, chunk=4000, timeout=1200, also=("AMBIG",))
+    total, fails = None, []
+    for g in (G_CUBIC, G_HEX):  # one batch per lattice frame (TraceBestBasis takes the frame from the first record)
+        part = [r for r in recs if r["gram"] == g]
+        t, f = tlc.run_chunks("TraceBestBasis.tla", "TraceBestBasis.cfg", part, prefix, chunk=4000, timeout=1200, also=("AMBIG",))
+        fails += f
+        if total is None:
+            total = t
+        else:
+            total.generated += t.generated
+            total.distinct += t.distinct
+            total.wall += t.wall
+            for k, v in t.also.items():
+                total.also[k] = total.also.get(k, 0) + v
+    run.notes["bestbasis_calls_hexagonal_frame"] = sum(1 for r in recs if r["gram"] == G_HEX)
     run.add_model(total, "TraceBestBasis: %d real _find_best_basis calls" % len(recs))
     run.traces(len(recs))
     run.notes["bestbasis_calls"] = len(recs)
@@ -137,7 +174,7 @@ def run(run, tier):
         if clause in seen:
             continue
         seen.add(clause)
-        run.model_drift("BestBasis.tla clause %s: _find_best_basis(spans=%s x %.2f%s, metrics=%s) returned %s"
-                        % (clause, rec["spans"], rec["scale"], " rotated" if rec["rotated"] else "", rec["metrics"],
+        run.model_drift("BestBasis.tla clause %s: _find_best_basis(spans=%s (frame %s) x %.2f%s, metrics=%s) returned %s"
+                        % (clause, rec["spans"], "cubic" if rec["gram"] == G_CUBIC else "hexagonal", rec["scale"], " rotated" if rec["rotated"] else "", rec["metrics"],
                            [k - 1 for k in rec["res"]] if not rec["error"] else rec["error"]))
     run.notes["bestbasis_disagreements"] = len(fails)
